@@ -118,7 +118,10 @@ def bounds(draw, palette: str = "general"):
 # metadata
 # ------------------------------------------------------------------------------------------
 _words = st.text(alphabet=string.ascii_letters + string.digits + " _-", min_size=1, max_size=12).map(str.strip).filter(bool)
-NAMES = st.one_of(st.just(""), _words)
+# names with inner runs of blanks and with non-ASCII white space inside (no-break space, thin space): no surrounding
+# blanks, so inside the quantifier of C10/C11, but altered by any whitespace "normalisation" (since seeded change C10-8)
+_spaced = st.sampled_from(["glucose transport  via PTS", "D-Glucose 6\u00a0%", "a\u2009b", "x   y", "alpha\u3000beta", "1  2 3"])
+NAMES = st.one_of(st.just(""), _words, _words, _words, _spaced)
 FORMULAS = st.sampled_from([None, "", "H2O", "C6H12O6", "CO2", "C2H6O", "NH4", "H", "C10H12N5O13P3"])
 CHARGES = st.sampled_from([None, 0, 0, 1, -1, -2, 3, -4])
 PROVIDERS = ["kegg.compound", "bigg.metabolite", "chebi", "ec-code", "metanetx.reaction", "uniprot", "ncbigene"]
